@@ -58,6 +58,29 @@ PROPS["C12"] = dict(
     min_evaluations=dict(quick=20000, thorough=400000),
 )
 
+PROPS["C07"] = dict(
+    title="Parallel reading is independent of thread count and scheduling",
+    level="exploration",
+    design_ref="DESIGN.md section 8, C07",
+    level_text=("Generated-input search over (file, I/O mode, num_threads, batch size, projection, delay script) with a differential oracle: the transcript of all batches "
+                "and the final status under num_threads = T while every fseek/fread issued by the library is perturbed by the generated delay script (yield, sleep, "
+                "rendezvous after a seek) must equal the num_threads = 1 transcript of the same file; N pthreads with their own reader handles (modes mixed) released by a "
+                "barrier must each reproduce the sequential transcript, also in a freshly exec'ed process in which no carquet code ran before the threads start. Two OpenMP "
+                "runtimes: gcc/libgomp at -O2 and clang/libomp under ASan/UBSan (memory errors caused by a race become visible). The harness does not own the scheduler: "
+                "it widens race windows at the I/O calls and samples schedules, it cannot enumerate them; races whose window does not contain an I/O call are only "
+                "reached by chance."),
+    level_note="sampled schedules only; ThreadSanitizer is not used (gcc libgomp is uninstrumented and reports false races; DESIGN.md section 8, C07)",
+    technique="property-based testing (rapidcheck) with schedule perturbation injected at the library's stdio calls (link-time wrap), differential oracle against the single-threaded run, two OpenMP runtimes, ASan",
+    rule=("evaluations count generated cases. Non-trivial: threads - num_threads != 1 and at least two projected columns hold pages (so two workers load pages in the same "
+          "call); independent / first_use - at least two concurrent readers on a file with at least one page."),
+    assumptions=["the OS scheduler decides the actual interleaving; the delay script only biases it"],
+    engines=[pbt("c07_parallel", variant="omp", libs=["rapidcheck", "snappy", "lz4"], ldflags=["-Wl,--wrap=fseek,--wrap=fread"], name="c07_parallel_gomp", confirm_tries=12,
+                 quick=dict(cases=150, size=60, procs=6), thorough=dict(cases=3000, size=100, procs=8)),
+             pbt("c07_parallel", variant="ompasan", libs=["rapidcheck", "snappy", "lz4"], ldflags=["-Wl,--wrap=fseek,--wrap=fread"], name="c07_parallel_libomp_asan", confirm_tries=12,
+                 quick=dict(cases=60, size=60, procs=6), thorough=dict(cases=1200, size=100, procs=8))],
+    min_evaluations=dict(quick=600, thorough=15000),
+)
+
 PROPS["C09"] = dict(
     title="Codecs round-trip every input and honour their size bounds",
     level="exploration",
